@@ -86,21 +86,42 @@ class DeflateDecompressor(SimpleGzipDecompressor):
     def __init__(self):
         super().__init__()
         self.decompressobj = None
+        self._pending = b''
 
     def decompress(self, value):
         if not self.decompressobj:
-            try:
-                self.decompressobj = zlib.decompressobj()
-                return self.decompressobj.decompress(value)
-            except zlib.error:
-                self.decompressobj = zlib.decompressobj(-zlib.MAX_WBITS)
-                return self.decompressobj.decompress(value)
+            # The 2 byte zlib header is needed to tell zlib from raw deflate
+            # but data may come in as a single byte.
+            value = self._pending + value
+
+            if len(value) < 2:
+                self._pending = value
+                return b''
+
+            self._pending = b''
+
+            if self._is_zlib_header(value):
+                try:
+                    self.decompressobj = zlib.decompressobj()
+                    return self.decompressobj.decompress(value)
+                except zlib.error:
+                    pass
+
+            self.decompressobj = zlib.decompressobj(-zlib.MAX_WBITS)
+            return self.decompressobj.decompress(value)
 
         return self.decompressobj.decompress(value)
+
+    @classmethod
+    def _is_zlib_header(cls, value):
+        '''Return whether the data starts with a zlib header (RFC 1950).'''
+        return value[0] & 0x0f == 8 and (value[0] * 256 + value[1]) % 31 == 0
 
     def flush(self):
         if self.decompressobj:
             return super().flush()
+        elif self._pending:
+            raise zlib.error('Incomplete or truncated stream')
         else:
             return b''
 
